@@ -30,7 +30,7 @@ WellFormed(fs) == fs.sub = "absent" => fs.c = "absent"
 (* 1 / 2 / 3.8 KiB), an existing directory;  what = "miss": <that prefix>/miss-<idx>, absent     *)
 (* until somebody creates it (ls = regular files, lk = symlinks created there).                  *)
 (* Interacting directory chains (MkdirAll items whose parents depend on each other):            *)
-(*   /w/l  (tl: absent | dir | file | link = symlink -> /w/t)     /w/t  (tt: absent | dir)        *)
+(*   /w/l  (tl: absent | dir | file | link = symlink -> t)        /w/t  (tt: absent | dir)        *)
 (*   item p = "ld" names /w/l/d/f, item p = "td" names /w/t/d/g.  Through the link /w/l/d IS      *)
 (*   /w/t/d, so an earlier item's MkdirAll can fail (dangling link) while a later item of the     *)
 (*   same batch makes that directory resolvable.  dl / dt: the directories /w/l/d (l a real       *)
@@ -100,11 +100,11 @@ MkdirFor(fs, it) ==
   CASE it.p = "c"  -> [ok |-> TRUE, fs |-> IF fs.sub = "absent" THEN [fs EXCEPT !.sub = "dir", !.c = "absent"] ELSE fs]
     [] it.p = "td" -> [ok |-> TRUE, fs |-> [fs EXCEPT !.tt = "dir", !.dt = TRUE]]
     [] it.p = "ld" ->
-         CASE fs.tl = "absent" -> [ok |-> TRUE, fs |-> [fs EXCEPT !.tl = "dir", !.dl = TRUE]]
-           [] fs.tl = "dir"    -> [ok |-> TRUE, fs |-> [fs EXCEPT !.dl = TRUE]]
-           [] fs.tl = "file"   -> [ok |-> FALSE, fs |-> fs]
-           [] fs.tl = "link"   -> IF fs.tt = "dir" THEN [ok |-> TRUE, fs |-> [fs EXCEPT !.dt = TRUE]]
-                                  ELSE [ok |-> FALSE, fs |-> fs]
+         ( CASE fs.tl = "absent" -> [ok |-> TRUE, fs |-> [fs EXCEPT !.tl = "dir", !.dl = TRUE]]
+             [] fs.tl = "dir"    -> [ok |-> TRUE, fs |-> [fs EXCEPT !.dl = TRUE]]
+             [] fs.tl = "file"   -> [ok |-> FALSE, fs |-> fs]
+             [] fs.tl = "link"   -> IF fs.tt = "dir" THEN [ok |-> TRUE, fs |-> [fs EXCEPT !.dt = TRUE]]
+                                    ELSE [ok |-> FALSE, fs |-> fs] )
     [] OTHER -> [ok |-> TRUE, fs |-> fs]            \* the parent exists
 
 ItemKind(fs, it) == IF it.p \in {"ld", "td"} THEN TreeKind(fs, it.p) ELSE IF it.p = "n" THEN (IF it.idx \in fs.ns THEN "regular" ELSE "absent")
